@@ -29,3 +29,13 @@ ENTRY = {
         "wrapping endpoints (latency/metrics/wrapError in eth2wrap_gen.go) do not change success/failure of the routed call",
     ],
 }
+
+# Fourth session: app/forkjoin/forkjoin.go itself is modelled (Model/ForkJoin.lean, Props/C19ForkJoin.lean, stream forkjoin);
+# what Model/Provide.lean assumed about it is now a theorem (provide_loop_receives_every_client_once, ...).
+from vlib import snippet_C19forkjoin as _fj
+ENTRY["streams"] = ENTRY["streams"] + [_fj.STREAM]
+ENTRY.setdefault("lean_props_extra", []).append(_fj.EXTRA_LEAN)
+# (C19 has no monitor_sigs filter: every signature of its streams counts)
+ENTRY["trusted_base"] = ENTRY["trusted_base"] + _fj.TRUSTED_BASE
+ENTRY["assumptions"] = [_fj.ASSUMPTION_REPLACEMENT] + ENTRY["assumptions"][1:] + _fj.ASSUMPTIONS
+ENTRY["level_text"] += _fj.LEVEL_TEXT
